@@ -1,8 +1,8 @@
 (* C03 - property theorems: connections are isolated; events name the connection that
-   caused them.  Proved for ALL interleavings (at request/response granularity) and all
-   histories of the modelled services; refuted, with witnesses, where the code keeps
-   per-connection state on the shared service object (ldap; ftp working directory; smtp
-   receive channel). *)
+   caused them.  Proved for ALL interleavings (at request/response granularity), any number
+   of connections and all histories, for the executable models of all eight services
+   (ldap, ftp, smtp, telnet, redis, memcached, http: per-connection state only; tftp: maps
+   keyed by client). *)
 From HT Require Import C03.Model C03.Check C03.Proofs.
 Open Scope N_scope.
 
@@ -26,11 +26,30 @@ Theorem C03_frame :
   obs i (snd (run step a tr)) = obs i (snd (run step b (own i tr))).
 Proof. exact frame. Qed.
 
-(* every service whose Handle keeps its state in locals: all interleavings *)
+(* every service whose Handle keeps its session state per connection: all interleavings *)
 Theorem C03_local_services_isolated :
   forall (C : Type) (lstep : C -> input -> C * list reply * list ev) (c0 : C) (i : N) (tr : list (N * input)),
   obs i (run_outs (lift lstep) tt c0 tr) = obs i (run_outs (lift lstep) tt c0 (own i tr)).
 Proof. exact local_frame. Qed.
+
+(* the full statement, per service: replies AND events of connection i in any interleaving
+   with any other connections = those of i's own traffic alone *)
+Theorem C03_ldap_isolated : forall i tr,
+  obs i (svc_run SVC_LDAP tr) = obs i (svc_run SVC_LDAP (own i tr)).
+Proof. exact (local_frame _ ldap_lstep (PH_NONE, false)). Qed.
+
+Theorem C03_ftp_isolated : forall i tr,
+  obs i (svc_run SVC_FTP tr) = obs i (svc_run SVC_FTP (own i tr)).
+Proof. exact (local_frame _ ftp_lstep (ftp_c0, [])). Qed.
+
+Theorem C03_smtp_isolated : forall i tr,
+  obs i (svc_run SVC_SMTP tr) = obs i (svc_run SVC_SMTP (own i tr)).
+Proof. exact (local_frame _ smtp_lstep 0). Qed.
+
+(* two smtp services in one process (connections spread over both) *)
+Theorem C03_smtp_two_services_isolated : forall i tr,
+  obs i (svc_run SVC_SMTP2 tr) = obs i (svc_run SVC_SMTP2 (own i tr)).
+Proof. exact (local_frame _ smtp_lstep 0). Qed.
 
 Theorem C03_telnet_isolated : forall i tr,
   obs i (svc_run SVC_TELNET tr) = obs i (svc_run SVC_TELNET (own i tr)).
@@ -48,12 +67,20 @@ Theorem C03_http_isolated : forall i tr,
   obs i (svc_run SVC_HTTP tr) = obs i (svc_run SVC_HTTP (own i tr)).
 Proof. exact (local_frame _ http_lstep PH_NONE). Qed.
 
-(* ... and every reply goes to, every event carries, the connection that took the step *)
+(* responses are never delivered to another client, no event carries another connection's
+   address: every reply goes to, every event carries, the connection that took the step *)
 Theorem C03_local_outputs_own :
   forall (C : Type) (lstep : C -> input -> C * list reply * list ev) tr st k j x o,
   nth_error tr k = Some (j, x) -> nth_error (snd (run (lift lstep) st tr)) k = Some o ->
   Forall (fun r => fst r = j) (fst o) /\ Forall (fun e => fst e = j) (snd o).
 Proof. exact local_outputs_own. Qed.
+
+(* login, working-directory, dialogue state never leaks: after any interleaving the state of
+   connection i is the fold of i's own inputs over the initial state *)
+Theorem C03_local_state_own :
+  forall (C : Type) (lstep : C -> input -> C * list reply * list ev) tr st i,
+  conns (fst (run (lift lstep) st tr)) i = fold_left (lnext C lstep) (map snd (own i tr)) (conns st i).
+Proof. exact local_state_own. Qed.
 
 (* sequential histories: any number of earlier sessions, finished or not *)
 Theorem C03_earlier_sessions_irrelevant :
@@ -74,105 +101,20 @@ Theorem C03_tftp_earlier_clients_irrelevant : forall i h p,
   obs i (svc_run SVC_TFTP (h ++ p)) = obs i (svc_run SVC_TFTP p).
 Proof. exact tftp_history_irrelevant. Qed.
 
-(* the hypothesis is needed: clients behind one IP share the limiter (by design) *)
+Theorem C03_tftp_outputs_own : forall tr st k j x o,
+  nth_error tr k = Some (j, x) -> nth_error (snd (run tftp_step st tr)) k = Some o ->
+  Forall (fun r : N * reply => fst r = j) (fst o) /\ Forall (fun e : N * ev => fst e = j) (snd o).
+Proof. exact tftp_outputs_own. Qed.
+
+(* the hypothesis is needed: clients behind one IP share the rate limiter (by design) *)
 Theorem C03_tftp_same_ip_boundary :
   ip_of 32 = ip_of 33 /\
   obs 33 (run_outs tftp_step tftp_s0 tt tftp_w1) = ([], []) /\
   obs 33 (run_outs tftp_step tftp_s0 tt (own 33 tftp_w1)) = ([5001], [mkEv 1 2]).
 Proof. exact tftp_same_ip_shares_limiter. Qed.
 
-(* ftp: the command channel and its pump are per connection; what remains shared is the
-   working directory.  Replies AND events are isolated as long as the other sessions do not
-   change directory; smtp: the replies, always *)
-Theorem C03_ftp_isolated_while_others_keep_directory : forall i tr,
-  Forall (fun p : N * input => fst p = i \/ keeps_directory (snd p)) tr ->
-  obs i (svc_run SVC_FTP tr) = obs i (svc_run SVC_FTP (own i tr)).
-Proof. exact ftp_isolated. Qed.
-
-Theorem C03_smtp_replies_isolated : forall i tr,
-  replies_on i (svc_run SVC_SMTP tr) = replies_on i (svc_run SVC_SMTP (own i tr)).
-Proof. exact smtp_replies_isolated. Qed.
-
-
-(* ftp and tftp: every reply of a step goes to, every event of a step carries, the stepping
-   connection (any state, any interleaving: ftp events name the connection that caused them);
-   smtp: replies and input-line events likewise *)
-Theorem C03_ftp_outputs_own : forall tr st k j x o,
-  nth_error tr k = Some (j, x) -> nth_error (snd (run ftp_step st tr)) k = Some o ->
-  Forall (fun r : N * reply => fst r = j) (fst o) /\ Forall (fun e : N * ev => fst e = j) (snd o).
-Proof. exact ftp_outputs_own. Qed.
-
-Theorem C03_smtp_replies_and_line_events_own : forall tr st k j x o,
-  nth_error tr k = Some (j, x) -> nth_error (snd (run smtp_step st tr)) k = Some o ->
-  Forall (fun r : N * reply => fst r = j) (fst o) /\
-  Forall (fun e : N * ev => e_type (snd e) = 1 -> fst e = j) (snd o).
-Proof. exact smtp_replies_and_line_events_own. Qed.
-
-Theorem C03_tftp_outputs_own : forall tr st k j x o,
-  nth_error tr k = Some (j, x) -> nth_error (snd (run tftp_step st tr)) k = Some o ->
-  Forall (fun r : N * reply => fst r = j) (fst o) /\ Forall (fun e : N * ev => fst e = j) (snd o).
-Proof. exact tftp_outputs_own. Qed.
-
-(* smtp: an event is only ever carried by a connection that is open at that moment (state
-   before the step neither "not accepted" nor "finished"); 0 = a choice the code cannot make *)
-Theorem C03_smtp_only_open_connections_carry : forall tr k j x o c e,
-  nth_error tr k = Some (j, x) -> nth_error (svc_run SVC_SMTP tr) k = Some o -> In (c, e) (snd o) ->
-  c = 0 \/ smtp_live (conns (fst (run smtp_step (mkSys [] (fun _ => 0)) (firstn k tr))) c) = true.
-Proof. exact (fun tr => smtp_only_open_connections_carry tr _ smtp_inv_initial). Qed.
-
-(* ---- the full statement is refuted for ldap, ftp, smtp (defects of the code) ---- *)
-
-(* ldap: B merely connects; the answer to A's next request is written to B's connection *)
-Theorem C03_ldap_crosstalk_refuted :
-  reply_elsewhere (svc_run SVC_LDAP ldap_w1) ldap_w1 3 17 34.
-Proof. exact ldap_crosstalk. Qed.
-
-(* ... A, bound as root, is answered as anonymous (result 53) and receives nothing itself *)
-Theorem C03_ldap_login_reset_refuted :
-  own 34 ldap_w1 = [(34, Open)] /\
-  replies_on 17 (svc_run SVC_LDAP ldap_w1) = [1001000] /\
-  replies_on 17 (svc_run SVC_LDAP (own 17 ldap_w1)) = [1001000; 2011000] /\
-  replies_on 34 (svc_run SVC_LDAP ldap_w1) = [2011053].
-Proof. exact ldap_login_reset. Qed.
-
-(* ftp: A's CWD changes B's PWD; the directory even survives the session *)
-Theorem C03_ftp_shared_cwd_refuted :
-  replies_on 34 (svc_run SVC_FTP ftp_w2) = [220000; 331000; 230000; 257001] /\
-  replies_on 34 (svc_run SVC_FTP (own 34 ftp_w2)) = [220000; 331000; 230000; 257000].
-Proof. exact ftp_shared_cwd. Qed.
-
-Theorem C03_ftp_cwd_survives_session_refuted :
-  replies_on 34 (svc_run SVC_FTP ftp_w3) = [220000; 331000; 230000; 257003] /\
-  replies_on 34 (svc_run SVC_FTP (own 34 ftp_w3)) = [220000; 331000; 230000; 257000].
-Proof. exact ftp_cwd_survives_session. Qed.
-
-(* smtp: B's mail is reported under the address of A, which is open and idle *)
-Theorem C03_smtp_misattribution_refuted :
-  picks_possible [] smtp_w1 = true /\
-  conns (fst (run smtp_step (mkSys [] (fun _ => 0)) (firstn 6 smtp_w1))) 17 = 2 /\
-  event_elsewhere (svc_run SVC_SMTP smtp_w1) smtp_w1 6 34 17.
-Proof. exact smtp_misattribution. Qed.
-
-(* ---- once the proposed repairs (fixes/C03-*.patch) are applied, ldap, ftp and smtp keep all
-   session state per connection: their models become lifted local steps and the full
-   statement holds for them as well (these models are validated against the patched code,
-   and become the ones used by svc_run when the patches land) ---- *)
-Theorem C03_ftp_session_isolated : forall i tr,
-  obs i (run_outs (lift ftp_session_lstep) tt (ftp_c0, []) tr) =
-  obs i (run_outs (lift ftp_session_lstep) tt (ftp_c0, []) (own i tr)).
-Proof. exact (local_frame _ ftp_session_lstep (ftp_c0, [])). Qed.
-
-Theorem C03_smtp_session_isolated : forall i tr,
-  obs i (run_outs (lift smtp_session_lstep) tt 0 tr) = obs i (run_outs (lift smtp_session_lstep) tt 0 (own i tr)).
-Proof. exact (local_frame _ smtp_session_lstep 0). Qed.
-
-Theorem C03_ldap_session_isolated : forall i tr,
-  obs i (run_outs (lift ldap_session_lstep) tt (PH_NONE, false) tr) =
-  obs i (run_outs (lift ldap_session_lstep) tt (PH_NONE, false) (own i tr)).
-Proof. exact (local_frame _ ldap_session_lstep (PH_NONE, false)). Qed.
-
-(* ---- non-vacuity: interleaved sessions with observable output; the checker's own
-   verdicts on model-generated observations ---- *)
+(* ---- non-vacuity: interleaved sessions with observable output - among them the
+   two-session schedules on which the code used to fail ---- *)
 Example C03_nonvacuous_telnet :
   let tr := [(17, Open); (34, Open); (17, Tok 1 0 0); (34, Tok 2 0 0); (17, Tok 1 0 0); (34, Tok 3 0 0); (17, Tok 2 0 0)] in
   obs 17 (svc_run SVC_TELNET tr) = ([1; 2; 3; 4], [mkEv 1 0; mkEv 2 17; mkEv 3 2]) /\
@@ -188,39 +130,64 @@ Proof.
   repeat (apply Forall_cons; [first [left; reflexivity | right; vm_compute; discriminate]|]); apply Forall_nil.
 Qed.
 
-(* the checker flags the ldap witness and passes a clean redis scenario *)
+(* ldap: A binds, B connects, A's delete is answered on A's connection, as the bound user *)
+Example C03_ldap_former_witness :
+  obs 17 (svc_run SVC_LDAP ldap_w1) = ([1001000; 2011000], [mkEv 1 1; mkEv 4 2]) /\
+  obs 34 (svc_run SVC_LDAP ldap_w1) = ([], []).
+Proof. split; vm_compute; reflexivity. Qed.
+
+(* ftp: A's CWD a leaves B's PWD at / ; every command is reported under its own connection *)
+Example C03_ftp_former_witness :
+  replies_on 34 (svc_run SVC_FTP ftp_w2) = [220000; 331000; 230000; 257000] /\
+  replies_on 17 (svc_run SVC_FTP ftp_w2) = [220000; 331000; 230000; 250001] /\
+  events_of 34 (svc_run SVC_FTP ftp_w2) = [mkEv 1 17; mkEv 1 33; mkEv 1 48].
+Proof. repeat split; vm_compute; reflexivity. Qed.
+
+(* smtp: B's mail is reported under B's address while A idles *)
+Example C03_smtp_former_witness :
+  events_of 34 (svc_run SVC_SMTP smtp_w1) = [mkEv 1 1; mkEv 1 2; mkEv 1 4; mkEv 2 7] /\
+  events_of 17 (svc_run SVC_SMTP smtp_w1) = [mkEv 1 1].
+Proof. split; vm_compute; reflexivity. Qed.
+
+(* the checker still recognises each former defect from an observation that shows it *)
 Example C03_checker_verdicts :
+  let e c t a p := mkOE c t a 0 p in
+  let ldap_bad := mkCase 0 SVC_LDAP ldap_w1
+        [([], []); ([(17, 1001000)], [e 17 1 1 389]); ([], []); ([(34, 2011053)], [e 17 4 2 389])] in
+  let ftp_bad_cwd := mkCase 0 SVC_FTP ftp_w2
+        [([(17, 220000)], []); ([(17, 331000)], [e 17 1 17 21]); ([(17, 230000)], [e 17 1 33 21]);
+         ([(34, 220000)], []); ([(34, 331000)], [e 34 1 17 21]); ([(34, 230000)], [e 34 1 33 21]);
+         ([(17, 250001)], [e 17 1 65 21]); ([(34, 257001)], [e 34 1 48 21])] in
+  let smtp_bad := mkCase 0 SVC_SMTP smtp_w1
+        [([(17, 220000)], []); ([(17, 250000)], [e 17 1 1 25]); ([(34, 220000)], []);
+         ([(34, 250000)], [e 34 1 1 25]); ([(34, 250000)], [e 34 1 2 25]); ([(34, 354000)], [e 34 1 4 25]);
+         ([(34, 250000)], [e 17 2 7 25])] in
   let mk svc tr := mkCase 0 svc tr
-        (map (fun o : outs => (fst o, map (fun e : N * ev => mkOE (fst e) (e_type (snd e)) (e_arg (snd e)) 0 (svc_port svc)) (snd o)))
+        (map (fun o : outs => (fst o, map (fun x : N * ev => mkOE (fst x) (e_type (snd x)) (e_arg (snd x)) 0 (svc_port svc (fst x))) (snd o)))
              (svc_run svc tr)) in
-  case_sigs (mk SVC_LDAP ldap_w1) = [SIG_REPLY_ELSEWHERE; SIG_REPLIES_DEPEND] /\
-  case_sigs (mk SVC_SMTP smtp_w1) = [SIG_EVENT_ELSEWHERE] /\
-  case_sigs (mk SVC_FTP ftp_w2) = [SIG_REPLIES_DEPEND] /\
+  case_sigs ldap_bad = [SIG_REPLY_ELSEWHERE; SIG_REPLIES_DEPEND] /\
+  case_sigs ftp_bad_cwd = [SIG_REPLIES_DEPEND] /\
+  case_sigs smtp_bad = [SIG_EVENT_ELSEWHERE] /\
+  model_ok ldap_bad = false /\ model_ok ftp_bad_cwd = false /\ model_ok smtp_bad = false /\
+  case_sigs (mk SVC_LDAP ldap_w1) = [] /\ case_sigs (mk SVC_FTP ftp_w2) = [] /\
+  case_sigs (mk SVC_SMTP smtp_w1) = [] /\ case_sigs (mk SVC_SMTP2 smtp_w1) = [] /\
   case_sigs (mk SVC_REDIS [(17, Open); (34, Open); (17, Tok 1 0 0); (34, Tok 2 0 0)]) = [].
 Proof. repeat split; vm_compute; reflexivity. Qed.
 
 Print Assumptions C03_frame.
 Print Assumptions C03_local_services_isolated.
+Print Assumptions C03_ldap_isolated.
+Print Assumptions C03_ftp_isolated.
+Print Assumptions C03_smtp_isolated.
+Print Assumptions C03_smtp_two_services_isolated.
 Print Assumptions C03_telnet_isolated.
 Print Assumptions C03_redis_isolated.
 Print Assumptions C03_memcached_isolated.
 Print Assumptions C03_http_isolated.
 Print Assumptions C03_local_outputs_own.
+Print Assumptions C03_local_state_own.
 Print Assumptions C03_earlier_sessions_irrelevant.
 Print Assumptions C03_tftp_keyed_isolation.
 Print Assumptions C03_tftp_earlier_clients_irrelevant.
-Print Assumptions C03_tftp_same_ip_boundary.
-Print Assumptions C03_ftp_isolated_while_others_keep_directory.
-Print Assumptions C03_smtp_replies_isolated.
-Print Assumptions C03_ftp_outputs_own.
-Print Assumptions C03_smtp_only_open_connections_carry.
-Print Assumptions C03_smtp_replies_and_line_events_own.
 Print Assumptions C03_tftp_outputs_own.
-Print Assumptions C03_ldap_crosstalk_refuted.
-Print Assumptions C03_ldap_login_reset_refuted.
-Print Assumptions C03_ftp_shared_cwd_refuted.
-Print Assumptions C03_ftp_cwd_survives_session_refuted.
-Print Assumptions C03_smtp_misattribution_refuted.
-Print Assumptions C03_ftp_session_isolated.
-Print Assumptions C03_smtp_session_isolated.
-Print Assumptions C03_ldap_session_isolated.
+Print Assumptions C03_tftp_same_ip_boundary.
